@@ -19,7 +19,8 @@ RULE = ("Episodes = meshed template net + seeded edits + one N-1 case set evalua
         "run_contingency on a scrubbed copy (reference, recorded per case) and (b) by run_contingency_parallel under "
         "2-4 seeded pool schedules (n_procs 1..6/None, chunk size, chunk->worker assignment, completion permutation). "
         "Non-trivial = a schedule's returned dict was compared key by key with the reference; distinct = distinct "
-        "(template, case counts, n_procs, chunk size, completion permutation, failed-case pattern).")
+        "(template, case counts, n_procs, chunk size, completion permutation, failed-case pattern)."
+        ' Separate N-0/N-1 option dicts, recycle option, case index forms; cause_index compared also where no outage is the cause.')
 COMPONENTS = {"real": ["run_contingency_parallel incl. the worker function and the aggregation", "run_contingency "
                        "(reference)", "pickle boundary for every task chunk"],
               "stub": ["SimPool/SimMP (in-process workers, planned chunking/assignment/completion order)"]}
